@@ -64,3 +64,93 @@ def etag_content_sensitive(cl, mod, cls, func):
 
 R.fclause("C05", "t1-stage-key/graph-etag-determines-content", "custom", "clematis/graph/store.py:InMemoryGraphStore._bump_etag",
           fn=etag_content_sensitive)
+
+
+# ---------------------------------------------------------------- half (i): a cached value is never mutated by its consumer
+# The per-graph result list returned by _t1_one_graph *is* the object stored in (or fetched from) the T1 cache.  If the
+# caller mutates it, or adopts it as an accumulator that is mutated later, the entry changes behind the cache's back and
+# the next hit returns something no fresh computation would ("a hit equals a fresh computation").  Clause over
+# t1_propagate (both the sequential loop and the parallel merge callback): no name bound from a _t1_one_graph result (or
+# an alias of such a name: plain `x = y` / tuple unpacking) is the target of an in-place mutation.
+_MUTATORS = {"append", "extend", "insert", "pop", "remove", "clear", "sort", "reverse", "update", "setdefault", "popitem", "add", "discard"}
+
+
+def cached_value_not_mutated(cl, mod, cls, func):
+    import ast as _ast
+    shared = {}      # name -> reason
+
+    def names_of(t, out):
+        if isinstance(t, _ast.Name):
+            out.append(t.id)
+        elif isinstance(t, (_ast.Tuple, _ast.List)):
+            for e in t.elts:
+                names_of(e, out)
+        elif isinstance(t, _ast.Starred):
+            names_of(t.value, out)
+
+    def produces_cached(e):
+        return isinstance(e, _ast.Call) and _ast.unparse(e.func) in ("_t1_one_graph",)
+
+    # the merge callback of the parallel path receives the per-graph results as its parameter: its loop targets over
+    # that parameter are shared too (structural: any for-loop target inside a nested def whose iterable is a parameter)
+    for fn in _ast.walk(func):
+        if isinstance(fn, (_ast.FunctionDef, _ast.Lambda)) and fn is not func and getattr(fn, "name", "") != "_t1_one_graph":
+            params = {a.arg for a in fn.args.args}
+            for n in _ast.walk(fn):
+                if isinstance(n, _ast.For) and isinstance(n.iter, _ast.Name) and n.iter.id in params:
+                    tl = []
+                    names_of(n.target, tl)
+                    for nm in tl:
+                        shared[nm] = "element of the merge callback's result list (line %d)" % n.lineno
+    one = [n for n in func.body if isinstance(n, _ast.FunctionDef) and n.name == "_t1_one_graph"]
+    skip = set()
+    for o in one:
+        for n in _ast.walk(o):
+            skip.add(id(n))
+    for _ in range(4):
+        for n in _ast.walk(func):
+            if id(n) in skip:
+                continue
+            if isinstance(n, _ast.Assign):
+                tl = []
+                for t in n.targets:
+                    names_of(t, tl)
+                if produces_cached(n.value):
+                    shared["<anchor>"] = "seen"
+                    for nm in tl:
+                        shared.setdefault(nm, "result of _t1_one_graph (line %d)" % n.lineno)
+                elif isinstance(n.value, _ast.Name) and n.value.id in shared:
+                    for nm in tl:
+                        shared.setdefault(nm, "alias of %s (line %d)" % (n.value.id, n.lineno))
+                elif isinstance(n.value, (_ast.Tuple, _ast.List)) and len(n.targets) == 1 and isinstance(n.targets[0], (_ast.Tuple, _ast.List)) \
+                        and len(n.value.elts) == len(n.targets[0].elts):
+                    for tt, vv in zip(n.targets[0].elts, n.value.elts):
+                        if isinstance(tt, _ast.Name) and isinstance(vv, _ast.Name) and vv.id in shared:
+                            shared.setdefault(tt.id, "alias of %s (line %d)" % (vv.id, n.lineno))
+    if shared.pop("<anchor>", None) is None:
+        return [result(cl["name"], "error", "anchor lost: no binding from a _t1_one_graph(...) call in %s" % cl["key"])]
+    bad = []
+    for n in _ast.walk(func):
+        if id(n) in skip:
+            continue
+        tgt = None
+        if isinstance(n, _ast.Call) and isinstance(n.func, _ast.Attribute) and n.func.attr in _MUTATORS and isinstance(n.func.value, _ast.Name):
+            tgt = n.func.value.id
+        elif isinstance(n, (_ast.Assign, _ast.AugAssign, _ast.Delete)):
+            for t in (n.targets if not isinstance(n, _ast.AugAssign) else [n.target]):
+                if isinstance(t, _ast.Subscript) and isinstance(t.value, _ast.Name):
+                    tgt = t.value.id
+                elif isinstance(n, _ast.AugAssign) and isinstance(t, _ast.Name):
+                    tgt = t.id
+        if tgt is not None and tgt in shared:
+            # numeric accumulators (`total += m[...]`) are rebinding, not mutation: only flag names bound to the delta list
+            if isinstance(n, _ast.AugAssign) and isinstance(n.target, _ast.Name) and not isinstance(n.op, _ast.Add):
+                continue
+            bad.append("line %d: `%s` mutates %s, which is the %s" % (n.lineno, _ast.unparse(n)[:60], tgt, shared[tgt]))
+    if bad:
+        return [result(cl["name"], "failed", "a value shared with the T1 cache is mutated in place: " + "; ".join(bad[:4]))]
+    return [result(cl["name"], "proved", where="shared names: " + ", ".join(sorted(shared)))]
+
+
+R.fclause("C05", "t1-cache-value/consumer-never-mutates-cached-result", "custom", "clematis/engine/stages/t1.py:t1_propagate",
+          fn=cached_value_not_mutated)
